@@ -5,6 +5,7 @@ wrote them, so that a mismatch names the source that wrongly won."""
 
 from __future__ import annotations
 
+import collections
 import copy
 import json
 import os
@@ -25,6 +26,7 @@ KEYS = {
     "l": ("list", [0]),
     "g.l2": ("list", []),
     "d": ("dict", {"z": 0}),
+    "od": ("dict", {"z": 0}),  # declared with an OrderedDict as default: a mapping type the library does not copy
 }
 
 
@@ -40,6 +42,7 @@ def build(default_files, default_env=False, mode="yaml"):
     p.add_argument("--l", type=List[int], default=[0])
     p.add_argument("--g.l2", type=List[int], default=[])
     p.add_argument("--d", type=Dict[str, int], default={"z": 0})
+    p.add_argument("--od", type=Dict[str, int], default=collections.OrderedDict(z=0))
     return p
 
 
@@ -257,24 +260,33 @@ def scenario(ctx, i, rng):
         with environ(osenv):
             p = build(default_files, default_env=(env_mode == "default_env"))
             kw = {"env": True} if env_mode == "env_kw" else {}
-            if method == "parse_args":
-                o = call(p.parse_args, argv, **kw)
-            elif method == "parse_env":
-                if explicit_env:
-                    # the environment to use is the mapping given; the process environment holds decoys
-                    decoy = {k: ("999" if k != "APP_CFG" else '{"a": 998}') for k in ("APP_A", "APP_G__N", "APP_CFG") if k not in env}
-                    with environ(decoy):
-                        for k in env:
-                            os.environ.pop(k, None)
-                        o = call(p.parse_env, dict(env))
-                else:
-                    o = call(p.parse_env)
-            elif method == "parse_string":
-                o = call(p.parse_string, payload, **kw)
-            elif method == "parse_object":
-                o = call(p.parse_object, payload, **kw)
-            else:
-                o = call(p.parse_path, payload, **kw)
+
+            def run_once():
+                if method == "parse_args":
+                    return call(p.parse_args, list(argv), **kw)
+                if method == "parse_env":
+                    if explicit_env:
+                        # the environment to use is the mapping given; the process environment holds decoys
+                        decoy = {k: ("999" if k != "APP_CFG" else '{"a": 998}') for k in ("APP_A", "APP_G__N", "APP_CFG") if k not in env}
+                        with environ(decoy):
+                            for k in env:
+                                os.environ.pop(k, None)
+                            return call(p.parse_env, dict(env))
+                    return call(p.parse_env)
+                if method == "parse_string":
+                    return call(p.parse_string, payload, **kw)
+                if method == "parse_object":
+                    return call(p.parse_object, copy.deepcopy(payload), **kw)
+                return call(p.parse_path, payload, **kw)
+
+            o = run_once()
+            # the fold starts from the defaults in the source code every time: the same sources on the same parser again,
+            # or only the standing sources (default files, environment) without this call's own
+            o_again, again = None, None
+            if i % 3 == 0:
+                o_again, again = run_once(), "same"
+            elif i % 3 == 1 and not (method == "parse_env" and explicit_env):
+                o_again, again = call(p.parse_args, [], **kw), "standing"
     finally:
         os.chdir(cwd)
     ctx.count(f"ev.{method}.{o.kind}")
@@ -289,23 +301,42 @@ def scenario(ctx, i, rng):
     if not o.accepted:
         ctx.violation("fold", f"valid-sources-rejected/{method}/{o.exc_type or o.code}", dict(w, outcome=o.brief()))
         return
+    standing = [s for s in sources if s[0] in ("default_file", "env_config", "env_var")]
+    for attempt, oo, exp_, srcs in (("first", o, expected, sources), ("repeated", o_again, expected if again == "same" else fold(defaults, [s[1] for s in standing]), sources if again == "same" else standing)):
+        if oo is None:
+            continue
+        if _compare(ctx, oo, exp_, srcs, dict(w, second_call=again) if attempt == "repeated" else w, method, attempt):
+            return
+    if i < 3:
+        ctx.sample(dict(method=method, env_mode=env_mode, default_config_files=default_files, env=env, argv=argv, final={k: expected[k] for k in ("a", "l", "d")}))
+
+
+def _compare(ctx, o, expected, sources, w, method, attempt):
+    """-> True when a violation was reported"""
+    rep = "" if attempt == "first" else "repeated-on-same-parser/"
+    if not o.accepted:
+        ctx.violation("fold", f"{rep}valid-sources-rejected/{method}/{o.exc_type or o.code}", dict(w, outcome=o.brief()))
+        return True
     got = strip_prov(o.value, {"cfg"}).as_dict()
     ctx.count("mon.fold_comparisons")
+    if attempt != "first":
+        ctx.count("mon.fold_comparisons_repeated_parse")
     for key in KEYS:
         cur = got
         for part in key.split("."):
             cur = cur.get(part) if isinstance(cur, dict) else None
         exp = expected[key]
+        if KEYS[key][0] == "dict" and isinstance(cur, dict):
+            cur = dict(cur)  # an untouched OrderedDict default stays an OrderedDict
         if cur != exp or type(cur) is not type(exp):
             # which source wrote the observed value / which should have
             last = [s[0] for s in sources if any(a[0] == key for a in s[1])]
             kinds_for_key = [(s[0], a[1]) for s in sources for a in s[1] if a[0] == key]
             winner = kinds_for_key[-1] if kinds_for_key else ("defaults", "plain")
-            sig = f"wrong-final-value/{KEYS[key][0]}/last-writer={winner[0]}:{winner[1]}/history=" + ">".join(f"{k}:{kd}" for k, kd in kinds_for_key[-3:])
+            sig = f"{rep}wrong-final-value/{KEYS[key][0]}/last-writer={winner[0]}:{winner[1]}/history=" + ">".join(f"{k}:{kd}" for k, kd in kinds_for_key[-3:])
             ctx.violation("fold", sig, dict(w, key=key, expected=exp, got=cur, expected_all=expected, got_all=got))
-            return
-    if i < 3:
-        ctx.sample(dict(method=method, env_mode=env_mode, default_config_files=default_files, env=env, argv=argv, final={k: expected[k] for k in ("a", "l", "d")}))
+            return True
+    return False
 
 
 def run_shard(ctx):
